@@ -1472,3 +1472,16 @@ Lemma strict_sro_thm rk g root x f F : wfb rk g = true -> bases g root = [] ->
   calc_sro true root (S f) g (fresh_sro f root g) x =
   match c3_lin (rooted root (bases g)) (S F) x with Some l => ROk l false | None => RRaise end.
 Proof. intros W R. apply (calc_sro_strict g rk root (wfb_wf _ _ W) R). Qed.
+
+(* ZOPE_INTERFACE_USE_LEGACY_IRO=1: __sro__ is the legacy order with Interface forced last — still a
+   valid linearization of the rooted hierarchy *)
+Lemma legacy_sro_thm rk g root x fuel : wfb rk g = true -> bases g root = [] -> x <> root ->
+  rk x < fuel ->
+  ValidLin (rooted root (bases g)) root x (root_last root (legacy_ro fuel g x)).
+Proof.
+  intros Wb R N H. pose proof (wfb_wf _ _ Wb) as W.
+  assert (L : Lin (rooted root (bases g)) x (root_last root (legacy_ro fuel g x))).
+  { apply (root_last_lin g root); auto. apply (Lin_B_QLin g rk root W R); auto.
+    apply (legacy_lin g rk W); auto. }
+  split; auto. eapply lin_rooted_last; eauto.
+Qed.
